@@ -9,6 +9,7 @@
 #include <tbox/network/tcp_client.h>
 #include <tbox/network/sockaddr.h>
 #include <tbox/util/fd.h>
+#include <tbox/base/log_impl.h>
 
 #include <errno.h>
 #include <fcntl.h>
@@ -101,6 +102,7 @@ void generate(sim::Rng &r, uint64_t seed, const std::string &tier, sim::Plan &p)
     fset(op);
     p.ops.push_back(op);
   }
+  if (r.chance(250)) p.cfg["log_errno"] = 1;      // drawn last: older seeds keep their plans
   p.sched.strategy = "none";
 }
 
@@ -361,6 +363,10 @@ void execute(const sim::Plan &plan) {
   sim::set_step_cap(400000);
   W = World();
   W.plan = &plan;
+  // cfg log_errno: a log channel is installed whose output function leaves another value in errno (a sink whose own I/O failed, as
+  // any function is allowed to): no decision of the stream code may depend on errno surviving a log statement
+  uint32_t log_chan = 0;
+  if (plan.get("log_errno")) { log_chan = LogAddPrintfFunc([](const LogContent *, void *) { errno = EBADF; }, nullptr); sim::probe("errno_clobbering_log_channel"); }
   W.mode = std::max(0L, std::min(2L, plan.get("mode")));
   W.loop = Loop::New(plan.get("backend") ? "select" : "epoll");
   W.path = std::string(sim::run_dir()) + "/s.sock";
@@ -511,6 +517,7 @@ void execute(const sim::Plan &plan) {
   delete W.loop;
   if (W.pfd >= 0 && !W.peer_closed) close(W.pfd);
   if (W.listen_fd >= 0) close(W.listen_fd);
+  if (log_chan) LogRemovePrintfFunc(log_chan);
   sim::finish();
 }
 
